@@ -1317,7 +1317,7 @@ fn arbty(t: &str, data: &[u8]) -> String {
         ($ty:ty) => {{
             let r = <$ty>::arbitrary(&mut u);
             match r {
-                Ok(v) => format!("ok {} rest={} wt=1", v.to_val().show(), u.len()),
+                Ok(v) => format!("ok {} rest={} valid=1", v.to_val().show(), u.len()),
                 Err(e) => format!("err {:?}", e),
             }
         }};
@@ -1343,7 +1343,7 @@ fn arbty(t: &str, data: &[u8]) -> String {
         "webauthn::FilteredPublicKeyCredentialParameters" => go!(wa::FilteredPublicKeyCredentialParameters),
         "ctap1::register::Request" => match ctap1::register::Request::arbitrary(&mut u) {
             Ok(r) => format!(
-                "ok {} rest={} wt=1",
+                "ok {} rest={} valid=1",
                 Val::Rec(vec![("challenge".into(), Val::Bytes(r.challenge.to_vec())), ("app_id".into(), Val::Bytes(r.app_id.to_vec()))]).show(),
                 u.len()
             ),
@@ -1351,7 +1351,7 @@ fn arbty(t: &str, data: &[u8]) -> String {
         },
         "ctap1::authenticate::Request" => match ctap1::authenticate::Request::arbitrary(&mut u) {
             Ok(r) => format!(
-                "ok {} rest={} wt=1",
+                "ok {} rest={} valid=1",
                 Val::Rec(vec![
                     ("control_byte".into(), Val::Enum(format!("{:?}", r.control_byte))),
                     ("challenge".into(), Val::Bytes(r.challenge.to_vec())),
